@@ -1,5 +1,6 @@
 SPECIFICATION Spec
 CONSTANTS
+  MaxFeats = 2
   Mode = "merge"
   NSources = 2
   PoolSize = 3
